@@ -525,6 +525,53 @@ func main() {
 			rtAny("Map", "node", o, func(d any) bool { return eqJSON(d, exp) })
 		}
 	}
+	// values encoding/json refuses (NaN, +-Inf, channels, functions - alone or nested) handed to the Any / Map
+	// scalars: the marshaler must either refuse loudly (it panics; the server turns that into an error response,
+	// C04) or write one JSON text - never write nothing or a fragment inside the enclosing object
+	unenc := []struct {
+		name string
+		v    any
+	}{
+		{"nan", math.NaN()}, {"+inf", math.Inf(1)}, {"-inf", math.Inf(-1)},
+		{"nested-nan", map[string]any{"a": 1, "b": []any{1.5, math.NaN()}}},
+		{"list-inf", []any{"x", math.Inf(1)}},
+		{"chan", make(chan int)}, {"func", func() {}},
+		{"map-with-chan", map[string]any{"c": make(chan int)}},
+	}
+	for _, u := range unenc {
+		for _, kind := range []string{"Any", "Map", "Any-in-object"} {
+			var b bytes.Buffer
+			panicked := false
+			func() {
+				defer func() {
+					if r := recover(); r != nil {
+						panicked = true
+					}
+				}()
+				switch kind {
+				case "Any":
+					graphql.MarshalAny(u.v).MarshalGQL(&b)
+				case "Map":
+					m, ok := u.v.(map[string]any)
+					if !ok {
+						m = map[string]any{"v": u.v}
+					}
+					graphql.MarshalMap(m).MarshalGQL(&b)
+				default:
+					fs := graphql.NewFieldSet([]graphql.CollectedField{{Field: &ast.Field{Alias: "before"}}, {Field: &ast.Field{Alias: "any"}}, {Field: &ast.Field{Alias: "after"}}})
+					fs.Values[0] = graphql.MarshalInt(1)
+					fs.Values[1] = graphql.MarshalAny(u.v)
+					fs.Values[2] = graphql.Array{}
+					fs.MarshalGQL(&b)
+				}
+			}()
+			verdict := "ok"
+			if !panicked && (!json.Valid(b.Bytes()) || b.Len() == 0) {
+				verdict = "unencodable-value-written-as-non-json"
+			}
+			fmt.Fprintf(out, "o\t%s-unencodable\t%s\t%s\t%s\n", kind, u.name, hx(b.Bytes()), verdict)
+		}
+	}
 	// framing
 	for i := 0; i < nframe; i++ {
 		n := genNode(r, 3)
